@@ -12,7 +12,10 @@ use std::net::SocketAddr;
 use std::sync::atomic::{AtomicBool, AtomicUsize, Ordering};
 use std::sync::{Arc, OnceLock, Weak};
 use tokio::io::AsyncReadExt;
+#[cfg(not(rustrtc_verif))]
 use tokio::net::{TcpListener, TcpStream};
+#[cfg(rustrtc_verif)]
+use crate::verif_hooks::{TcpListener, TcpStream};
 use tracing::debug;
 
 static SHARED_PORTS: OnceLock<Mutex<HashMap<SocketAddr, Arc<SharedTcpPort>>>> = OnceLock::new();
@@ -67,6 +70,13 @@ impl SharedTcpPort {
             }
         });
     }
+}
+
+/// Forget every shared TCP port of this process (a simulated run must not inherit the
+/// listener of an earlier run that ended without releasing it).
+#[cfg(rustrtc_verif)]
+pub fn verif_reset_registry() {
+    registry().lock().clear();
 }
 
 /// Keeps a PeerConnection registered on a shared passive TCP port until dropped.
